@@ -215,7 +215,7 @@ func printManifest() {
 		Reason     string `json:"reason"`
 	}
 	var checks []check
-	var nas []na
+	nas := []na{}
 	var served []string
 	for _, id := range rules.PropIDs() {
 		p := rules.GetProp(id)
